@@ -23,6 +23,7 @@ from .pipes import OPS, Builder
 INF = float("inf")
 _DELIVERY = ("on_next", "on_error", "on_completed")
 _ADO = "observer/autodetachobserver.py"
+_SITEM = "scheduler/scheduleditem.py"
 
 
 class Diverged(BaseException):
@@ -112,6 +113,11 @@ class TLab(Lab):
                 break
             elif c.co_name in _DELIVERY and c.co_filename.endswith(_ADO):
                 new_delivery = True
+            elif c.co_name == "invoke" and c.co_filename.endswith(_SITEM) and f.f_back is not None and id(f.f_back) in known:
+                # a later work item of a run loop (trampoline batch / virtual-time queue) that was already running
+                # when dispose() was called: scheduled work, never a handler tail.  (An invoke whose loop frame is
+                # new is a trampoline started inline by the tail itself, e.g. Observable.subscribe.)
+                return
             f = f.f_back
         if not new_delivery:
             self.continuations[key] = "tail"
